@@ -66,6 +66,12 @@ def m_saturating_add(it, st, fr, t, args, ga):
     return I.Num(t_min(t_max(a.term + b.term, Poly.const(lo), st.ctx), Poly.const(hi), st.ctx), a.ty)
 
 
+def m_saturating_mul(it, st, fr, t, args, ga):
+    a, b = _num(args[0]), _num(args[1])
+    lo, hi = _int_bounds(a)
+    return I.Num(t_min(t_max(a.term * b.term, Poly.const(lo), st.ctx), Poly.const(hi), st.ctx), a.ty)
+
+
 def _wrapping(op):
     def m(it, st, fr, t, args, ga):
         from .terms import t_mod
@@ -488,6 +494,9 @@ def elem_term(term, idx, length, ctx, ety=None):
     a = tm.as_single_atom()
     if ety['k'] in ('int', 'uint'):
         lo, hi = I.INT_RANGES[ety['n']]
+        hull = ctx.elem_hull(term)
+        if hull is not None:
+            lo, hi = max(Fr(lo), hull[0]), min(Fr(hi), hull[1])
         ctx.ranges.setdefault(a, (Fr(lo), Fr(hi)))
         ctx.int_atoms.add(a)
     return tm
@@ -503,6 +512,9 @@ def select_term(fname, term, length, ctx, ety=None):
         a = tm.as_single_atom()
         if ety['k'] in ('int', 'uint'):
             lo, hi = I.INT_RANGES[ety['n']]
+            hull = ctx.elem_hull(tt)
+            if hull is not None:
+                lo, hi = max(Fr(lo), hull[0]), min(Fr(hi), hull[1])
             ctx.ranges.setdefault(a, (Fr(lo), Fr(hi)))
             ctx.int_atoms.add(a)
         return tm
@@ -879,13 +891,26 @@ def m_slice_index(it, st, fr, t, args, ga):
 # ---------------------------------------------------------------- heapless::HistoryBuffer and iterator adaptors
 
 def m_hist_new(it, st, fr, t, args, ga):
-    return I.ContV('hist', ('new',), cap=_cap_from(it, ga, fr), elem_ty=_elem_ty_from(ga))
+    return I.ContV('hist', ('new',), cap=_cap_from(it, ga, fr), elem_ty=_elem_ty_from(ga), extra={'fill': ZERO})
 
 
 def m_hist_write(it, st, fr, t, args, ga):
     c = _cont(it, st, args[0])
     c.term = ('write', c.term, _hash_val(it, args[1]))
+    fill = c.extra.get('fill') if c.extra else None
+    cap = c.cap if c.cap is not None else _cap_from(it, ga, fr)
+    if fill is not None and cap is not None:
+        c.extra = dict(c.extra)
+        c.extra['fill'] = t_min(fill + 1, cap, st.ctx)
     return I.UnitV()
+
+
+def m_hist_len(it, st, fr, t, args, ga):
+    c = _cont(it, st, args[0])
+    fill = c.extra.get('fill') if c.extra else None
+    if fill is None:
+        return it.opaque_result(st, {'k': 'uint', 'n': 'usize', 's': 'usize'}, 'hist_len')
+    return I.Num(fill, 'usize')
 
 
 def m_hist_capacity(it, st, fr, t, args, ga):
@@ -1101,6 +1126,7 @@ def registry():
         'heapless::histbuf::HistoryBuffer::<T, N>::new': m_hist_new,
         'heapless::histbuf::HistoryBuffer::<T, N>::write': m_hist_write,
         'heapless::histbuf::HistoryBuffer::<T, N>::capacity': m_hist_capacity,
+        'heapless::histbuf::HistoryBuffer::<T, N>::len': m_hist_len,
         'heapless::histbuf::HistoryBuffer::<T, N>::oldest_ordered': _iter_adaptor('oldest_ordered'),
         'heapless::histbuf::HistoryBuffer::<T, N>::as_slice': _iter_adaptor('as_slice'),
         'heapless::histbuf::HistoryBuffer::<T, N>::recent': _iter_adaptor('recent'),
@@ -1124,4 +1150,13 @@ def registry():
         'heapless::vec::Vec::<T, N>::iter': m_vec_deref,
         "<core::slice::Iter<'a, T> as core::iter::Iterator>::fold": m_fold,
     }
+    # the integer helpers exist for every primitive integer type
+    for ity in ('u8', 'u16', 'u32', 'u64', 'usize', 'i8', 'i16', 'i32', 'i64', 'isize'):
+        base = 'core::num::<impl %s>::' % ity
+        for name, fn_ in (('saturating_sub', m_saturating_sub), ('saturating_add', m_saturating_add), ('saturating_mul', m_saturating_mul),
+                          ('wrapping_add', _wrapping('add')), ('wrapping_sub', _wrapping('sub')), ('wrapping_mul', _wrapping('mul')),
+                          ('checked_add', m_checked('add')), ('checked_sub', m_checked('sub')), ('checked_mul', m_checked('mul'))):
+            R.setdefault(base + name, fn_)
+        if ity.startswith('u'):
+            R.setdefault(base + 'abs_diff', m_abs_diff)
     return R
